@@ -111,6 +111,8 @@ def _run_jobs(ctx: Ctx, quick: bool) -> Dict[str, Any]:
         "storage-export": ("MC_Storage", _storage_cfg(raw, bind_depth, [main_inv, "Lockstep"], export=True), "hold", {"workers": 2 if quick else 6}),
         "storage-export-prefix-a/b/": ("MC_Storage", _storage_cfg(raw, bind_depth - 1, [main_inv, "Lockstep"], export=True, prefix="a/b/"), "hold", {"workers": 2}),
         "storage-export-no-prefix": ("MC_Storage", _storage_cfg(raw, bind_depth - 1, [main_inv, "Lockstep"], export=True, prefix=""), "hold", {"workers": 2}),
+        # a table prefix made of the characters the internal directory names start with (character-set vs. prefix stripping)
+        "storage-export-prefix-dat": ("MC_Storage", _storage_cfg(raw, bind_depth - 1, [main_inv, "Lockstep"], export=True, prefix="dat"), "hold", {"workers": 2}),
         "storage-raw-prefix-only-leaks-siblings": ("MC_Storage", _storage_cfg(True, bind_depth, ["AgreeExceptSiblingLeak", "Lockstep"]), "hold", {"workers": 2 if quick else 6}),
         "storage-list-raw-prefix-defect": ("MC_Storage", _storage_cfg(True, 2, ["BackendsAgree"]), "BackendsAgree", {"workers": 1}),
         "storage-mutant-exists-lists": ("MC_Storage", _storage_cfg(False, 2, ["BackendsAgree"], always=True), "BackendsAgree", {"workers": 1}),
@@ -922,7 +924,7 @@ def run(ctx: Ctx) -> None:
     if ctx.violations:
         return
     states: List[Dict[str, Any]] = []
-    for job, tprefix in (("storage-export", "t"), ("storage-export-prefix-a/b/", "a/b/"), ("storage-export-no-prefix", "")):
+    for job, tprefix in (("storage-export", "t"), ("storage-export-prefix-a/b/", "a/b/"), ("storage-export-no-prefix", ""), ("storage-export-prefix-dat", "dat")):
         part = _json_lines(results[job])
         if len(part) != results[job].distinct:
             raise MachineryError(f"{job}: {len(part)} records for {results[job].distinct} distinct states")
